@@ -590,3 +590,19 @@ Proof.
   - exact (Fasc _ Hin).
   - symmetry. apply bytes_eqb_eq. now apply Ft.
 Qed.
+
+(* ------------------------------------------------------------------ the views of the correspondence *)
+
+(* when every batch handed to AddToFile is created (standard) or created and validated (IAT), every
+   view the correspondence prints carries the verdict "accepted" and a skeleton that validates *)
+Lemma iat_views_accepted A T TT hd sp ip iq kiat all :
+  Forall (fun x => created_s A T hd sp kiat x \/ created_iv A TT hd ip iq kiat x) (pre all) ->
+  Forall (fun v => snd v = true /\ Arith.validate_batch A (fst v) = Arith.ROk) (iat_views A TT hd ip iq all).
+Proof.
+  unfold iat_views. fold (pre all). induction 1 as [|x l Hx _ IH]; cbn [flat_map]; [constructor|].
+  apply Forall_app. split; [|exact IH].
+  destruct Hx as [((Kx & _) & _)|(_ & b' & Hc & _ & _ & Hv & Hs & Hl & Hi)].
+  - rewrite Kx. constructor.
+  - destruct (b_kind x); [constructor|]. rewrite Hc. constructor; [|constructor]. cbn [fst snd].
+    split; [|exact Hv]. unfold iat_validate. now rewrite Hv, Hs, Hl, Hi.
+Qed.
